@@ -534,7 +534,8 @@ def gen_scripts(rng, n, temporal, nops):
         init = dict(d=d, qs=[rng.randrange(4) for _ in range(noa(d))], es=[rng.choice([-1, 0, 1]) for _ in range(d - 1)],
                     l=rng.choice(LENEXP))
         ops = []
-        kinds = ["SetLenList", "SetAngles", "SetAnis", "SetDim", "SetLenScalar", "SetLenList", "SetAngles"]
+        kinds = ["SetLenList", "SetAngles", "SetAnis", "SetDim", "SetLenScalar", "SetLenList", "SetAngles",
+                 "CallStored", "Refresh", "ReadPos", "Call"]
         for j in range(nops):
             kind = kinds[(k + j) % len(kinds)] if j < 2 else rng.choice(kinds)
             if kind == "SetLenList":
@@ -553,8 +554,10 @@ def gen_scripts(rng, n, temporal, nops):
             elif kind == "SetDim":
                 d = rng.choice([x for x in (2, 3, 4) if x != d])
                 ops.append(dict(name=kind, s=[], v=d))
-            else:
+            elif kind == "SetLenScalar":
                 ops.append(dict(name=kind, s=[], v=rng.choice(LENEXP)))
+            else:
+                ops.append(dict(name=kind, s=[], v=0))       # a use: nothing is assigned
         scripts.append(dict(init=init, ops=ops))
     return scripts
 
@@ -564,10 +567,11 @@ def hist_module(name, mode, scripts):
     mod = mod.replace("EXTENDS Geometry", "EXTENDS GeometryHist").replace("====\n", "")
     mod += "McScripts == %s\n====\n" % _tl(scripts)
     cfg = cfg.replace("INIT Init\nNEXT Next\n", " Scripts <- McScripts\nINIT HInit\nNEXT HNext\n")
-    return mod, _cfg_inv(cfg, LIN_INVS + ["TimeNeverRotated", "ShapeOK"])
+    return mod, _cfg_inv(cfg, LIN_INVS + ["TimeNeverRotated", "ShapeOK"]) + "PROPERTY UseKeepsState\n"
 
 
 HIST_MODELS = MODELS[:5]
+USE_OPS = ("Call", "CallStored", "Refresh", "ReadPos")
 
 
 def _apply_op(m, op, toggle):
@@ -585,6 +589,8 @@ def _apply_op(m, op, toggle):
         m.len_scale = 2.0 * 2.0 ** op["v"]
     elif n == "SetDim":
         m.dim = op["v"]
+    elif n in USE_OPS:
+        pass
     else:
         raise AssertionError("unknown operation %r" % (op,))
 
@@ -664,6 +670,19 @@ def replay_script(col, mode, k, script, states):
         col.check(close(a1, a2, KTOL) and close(v1, v2, KTOL), "history:%s:Krige" % cls,
                   "%s: the long-lived (refreshed) kriging object differs from the isotropic model at the spec's transformed positions "
                   "(field %s, variance %s)" % (what, maxdiff(a1, a2), maxdiff(v1, v2)), dict(rp, pipeline="Krige"))
+        # --- uses of the stored positions: the same call again without positions, a refresh, reading pos / cond_pos:
+        # nothing is assigned (spec: UseKeepsState), the stored arrays are what was passed, the answers are the same
+        P0 = a["P"].copy()
+        fs = srf()
+        kr.set_condition()
+        as_, vs_ = kr()
+        col.check(close(fs, f1, 0.0) and close(as_, a1, KTOL) and close(vs_, v1, KTOL), "history:%s:stored-positions:repeat" % cls,
+                  "%s: calling the SRF / the refreshed Krige object again on its stored positions changes the result (SRF by %s, "
+                  "kriging by %s)" % (what, maxdiff(fs, f1), maxdiff(as_, a1)), dict(rp, pipeline="stored positions"))
+        col.check(np.array_equal(P, P0) and np.array_equal(np.asarray(srf.pos), P0) and np.array_equal(np.asarray(kr.pos), P0)
+                  and np.array_equal(np.asarray(kr.cond_pos), P0[:, :nc]), "history:%s:stored-positions:arrays" % cls,
+                  "%s: the caller's position array or the stored pos / cond_pos changed by using the objects" % what,
+                  dict(rp, pipeline="stored positions"))
         a3, v3 = gs.krige.Simple(m, cond_pos=cp, cond_val=cv, mean=0.5)(P)
         a4, v4 = gs.krige.Simple(m_iso, cond_pos=icp, cond_val=cv, mean=0.5)(a["isoX"])
         col.check(close(a3, a4, KTOL) and close(v3, v4, KTOL), "history:%s:Krige-new" % cls,
@@ -1015,7 +1034,8 @@ def _unit(lat, lon):
 def gen_gc_sets(rng, n):
     """Point sets on which every pairwise great-circle distance is an exact integer number of degrees."""
     sets = []
-    fams = ["equator", "meridian", "equator+poles", "meridian+poles", "octahedral"]
+    fams = ["equator", "meridian", "equator+poles", "meridian+poles", "octahedral",
+            "arc-regional", "arc-continental", "meridian-arc", "lattice-global", "lattice-part"]
     for k in range(n):
         fam = fams[k % len(fams)]
         pts = []
@@ -1033,6 +1053,25 @@ def gen_gc_sets(rng, n):
             pts += [(90, rng.randrange(-400, 400)), (-90, lon0), (0, lon0 + 180)]
             if fam == "meridian+poles":
                 pts = pts[2:] + [(0, lon0 + 90 + 360 * rng.choice([-1, 0, 1])), (0, lon0 - 90)]
+        elif fam in ("arc-regional", "arc-continental"):
+            # arc of the equator inside one quadrant (any representation of the longitudes): regional = a few degrees
+            q = rng.randrange(4)
+            span = rng.randrange(3, 9) if fam == "arc-regional" else rng.randrange(40, 89)
+            lo = 90 * q + rng.randrange(0, 90 - span + 1)
+            inner = [rng.randrange(lo, lo + span + 1) for _ in range(6)]
+            pts = [(0, x + 360 * rng.choice([-1, 0, 0, 1])) for x in [lo, lo + span] + inner]
+        elif fam == "meridian-arc":
+            lon0 = rng.randrange(-180, 361)
+            sgn = rng.choice([1, -1])
+            a, b = sorted(rng.sample(range(0, 91), 2))
+            pts = [(sgn * x, lon0) for x in [a, b] + [rng.randrange(a, b + 1) for _ in range(6)]]
+        elif fam == "lattice-global":
+            pts = [(0, 90 * rng.randrange(-4, 6)) for _ in range(4)] + [(90, 0), (-90, 90), (0, 0), (0, 180), (0, -90), (0, 90)]
+        elif fam == "lattice-part":
+            # two or three mutually orthogonal vertices (box diagonal = chord of 90 / 120 degrees), repeated
+            base = rng.choice([[(0, 0), (0, 90)], [(0, 0), (0, 90), (90, 0)], [(0, 180), (-90, 0)], [(0, -90), (0, 0), (-90, 180)]])
+            pts = base + [rng.choice(base) for _ in range(4)]
+            pts = [(la, lo + (360 * rng.choice([-1, 0, 1]) if la == 0 else 0)) for la, lo in pts]
         else:
             pts = [(0, 90 * rng.randrange(-4, 6)) for _ in range(5)] + [(90, 90 * rng.randrange(-4, 6)), (-90, rng.randrange(-400, 400)),
                                                                         (0, 0), (0, 180), (0, -90)]
@@ -1078,7 +1117,7 @@ def gen_st_sets(rng, n, size=6):
             key = (tuple(np.round(_unit(p[0], p[1]), 6)), p[2])
             if all(key != (tuple(np.round(_unit(q[0], q[1]), 6)), q[2]) for q in pts):
                 pts.append(p)
-        sets.append(dict(r=rng.choice([-1, 0, 1]), te=rng.choice([-1, 0, 1]), pts=pts))
+        sets.append(dict(r=rng.choice([-1, 0, 1]), te=rng.choice([-1, 1, -1, 1, 0]), pts=pts))
     return sets
 
 
@@ -1249,6 +1288,49 @@ def check_gc_set(col, k, fam, pts, vals, s, tier):
                       "automatic bins (geo_scale %s, bin_no=%d): centres / counts %s differ from standard_bins' classes filled with the "
                       "spec's great-circle distances %s" % (sname, nb, np.asarray(cnt).astype(int).tolist(), e_cnt.astype(int).tolist()),
                       dict(rp, geo_scale=sc, bin_no=nb, clause="automatic bins, data cut-off"))
+    # cut-off of the automatic bins: an explicit max_dist is the last edge, whatever bin_no; the default is one third of
+    # the great-circle length of the bounding-box diagonal (spec: boxgc) -- standard_bins and vario_estimate alike
+    boxgc = o["boxgc"]
+    for sname, sc in _scales():
+        unit = (math.pi / 180.0) * sc
+        r3 = dict(rp, geo_scale=sc, clause="cut-off of automatic bins", boxgc_deg=boxgc)
+
+        def regular(edges, last, what, key):
+            edges = np.asarray(edges, dtype=float)
+            ok = len(edges) >= 2 and abs(edges[0]) <= 1e-300 and abs(edges[-1] - last) <= KTOL * max(last, sc * 1e-3) \
+                and close(np.diff(edges), np.full(len(edges) - 1, last / (len(edges) - 1)), KTOL * sc)
+            col.check(ok, key, "%s (geo_scale %s): edges from %s to %s (%d bins), the great-circle geometry gives a last edge of %s "
+                      "= %s degrees" % (what, sname, edges[0], edges[-1], len(edges) - 1, last, last / unit), r3)
+
+        for mdeg in (4.5, 45.1, 93.7, 140.0):
+            regular(standard_bins((lat, lon), latlon=True, geo_scale=sc, max_dist=mdeg * unit), mdeg * unit,
+                    "standard_bins(max_dist=%s deg)" % mdeg, "standard_bins:latlon:explicit-max_dist")
+            regular(standard_bins((lat, lon), latlon=True, geo_scale=sc, max_dist=mdeg * unit, bin_no=6), mdeg * unit,
+                    "standard_bins(max_dist=%s deg, bin_no=6)" % mdeg, "standard_bins:latlon:explicit-max_dist")
+            bc = gs.vario_estimate((lat, lon), fld, latlon=True, geo_scale=sc, max_dist=mdeg * unit)[0]
+            col.check(abs(bc[0] + bc[-1] - mdeg * unit) <= KTOL * mdeg * unit, "vario_estimate:latlon:explicit-max_dist",
+                      "vario_estimate(max_dist=%s deg, bin_no=None, geo_scale %s): bin centres %s..%s belong to a last edge of %s deg"
+                      % (mdeg, sname, bc[0], bc[-1], (bc[0] + bc[-1]) / unit), r3)
+        if boxgc > 0:
+            last = boxgc / 3.0 * unit
+            sb = standard_bins((lat, lon), latlon=True, geo_scale=sc)
+            regular(sb, last, "standard_bins (default cut-off, %s)" % fam, "standard_bins:latlon:default-cutoff")
+            regular(standard_bins((lat, lon), latlon=True, geo_scale=sc, bin_no=5), last,
+                    "standard_bins (default cut-off, bin_no=5, %s)" % fam, "standard_bins:latlon:default-cutoff")
+            bc, gam, cnt = gs.vario_estimate((lat, lon), fld, latlon=True, geo_scale=sc, return_counts=True)
+            nb = len(bc)
+            col.check(nb == len(sb) - 1 and abs(bc[0] + bc[-1] - last) <= KTOL * last, "vario_estimate:latlon:default-cutoff",
+                      "vario_estimate with default bins (%s, geo_scale %s): %d centres %s..%s belong to a last edge of %s deg, the "
+                      "great-circle length of the bounding-box diagonal / 3 is %s deg" % (fam, sname, nb, bc[0], bc[-1],
+                                                                                          (bc[0] + bc[-1]) / unit, boxgc / 3.0), r3)
+            # counts in the spec's classes k * (boxgc/3) / nb (skipped if a distance sits on an edge)
+            ed = [kk * boxgc / 3.0 / nb for kk in range(nb + 1)]
+            dd = [dist[i, j] for i, j in iu]
+            if all(abs(x - e) > 1e-6 for x in dd for e in ed):
+                e_cnt = np.array([sum(1 for x in dd if ed[b] <= x < ed[b + 1]) for b in range(nb)], dtype=float)
+                col.check(close(cnt, e_cnt, 0.0), "vario_estimate:latlon:default-cutoff:counts",
+                          "vario_estimate with default bins (%s, geo_scale %s): counts %s, the spec's distances in the default classes "
+                          "give %s" % (fam, sname, np.asarray(cnt).astype(int).tolist(), e_cnt.astype(int).tolist()), r3)
     # Yadrenko functions and chordal distances
     name, kw = LL_MODELS[k % len(LL_MODELS)]
     sname, sc = _scales()[k % 4]
@@ -1377,6 +1459,74 @@ def check_st_set(col, k, S, s, seed):
               "simple kriging with the lat-lon + time model differs from the weights built from the spec's space-time distances "
               "(chord on the sphere of radius %s, time / %s): field %s, variance %s" % (R, ts, maxdiff(f, ef), maxdiff(var, ev)),
               dict(rp, got=f, expected=ef))
+    check_st_history(col, k, S, s, seed, m, m4, name)
+
+
+def check_st_history(col, k, S, s, seed, m, m4, name):
+    """Uses of ONE lat-lon + time model / SRF / Krige / CondSRF object with stored positions (float64 arrays and tuples):
+    repeated identical calls, calls re-using the stored positions, set_condition() without arguments, reading pos /
+    cond_pos.  Nothing is assigned, so every answer is the one the spec gives for the (unchanged) positions, and the
+    stored arrays stay what the caller passed."""
+    from gstools.tools import geometric as g
+
+    gs = _gs()
+    o = s["out"]
+    pts = S["pts"]
+    R, ts = 2.0 ** S["r"], 2.0 ** S["te"]
+    pos = np.array(o["pos4"], dtype=float).T / 4.0
+    rp = {"kind": "st-history", "set": S, "model": name}
+    what = "%s, geo_scale %s, time ratio %s" % (name, R, ts)
+    nc = 2
+    for form in ("ndarray", "tuple"):
+        arr0 = np.array([[p[0] for p in pts], [p[1] for p in pts], [p[2] for p in pts]], dtype=np.double)
+        arr = arr0.copy() if form == "ndarray" else tuple(list(row) for row in arr0.tolist())
+        carr = arr0[:, :nc].copy() if form == "ndarray" else tuple(list(row) for row in arr0[:, :nc].tolist())
+        tarr = arr0[:, nc:].copy() if form == "ndarray" else tuple(list(row) for row in arr0[:, nc:].tolist())
+        same = lambda x, ref: np.array_equal(np.asarray(x, dtype=float).reshape(ref.shape), ref)  # noqa: E731
+        key = "history-latlon:%s:" % form
+        # the conversions themselves, twice on the same object
+        for rnd in (1, 2):
+            got = m.isometrize(arr)
+            col.check(close(got, pos, TOL * max(1.0, R)) and same(arr, arr0), key + "isometrize",
+                      "%s: isometrize, call %d on the same position %s: differs from the spec by %s / caller's array changed: %s"
+                      % (what, rnd, form, maxdiff(got, pos), not same(arr, arr0)), rp)
+            got = g.latlon2pos(arr, radius=R, temporal=True, time_scale=ts)
+            col.check(close(got, pos, TOL * max(1.0, R)) and same(arr, arr0), key + "latlon2pos",
+                      "%s: latlon2pos, call %d on the same position %s: differs from the spec by %s / caller's array changed: %s"
+                      % (what, rnd, form, maxdiff(got, pos), not same(arr, arr0)), rp)
+        # SRF: call with positions, then re-use the stored ones
+        ref = gs.SRF(m4, seed=seed + k, mode_no=16)(pos)
+        srf = gs.SRF(m, seed=seed + k, mode_no=16)
+        res = [srf(arr), srf(), srf()]
+        col.check(all(close(r, ref, 1e-11) for r in res), key + "SRF:repeat",
+                  "%s: SRF called with positions and then twice on the stored positions: deviations from the 4-D model at the spec's "
+                  "positions %s" % (what, [maxdiff(r, ref) for r in res]), rp)
+        col.check(same(srf.pos, arr0) and same(arr, arr0), key + "SRF:stored-pos",
+                  "%s: the stored SRF.pos / the caller's positions changed: stored times %s, given %s"
+                  % (what, np.asarray(srf.pos)[2].tolist(), arr0[2].tolist()), rp)
+        # Krige: call, call on stored pos, refresh, call again, read cond_pos
+        vals = [1.5, -0.5]
+        kref = gs.krige.Simple(m4, cond_pos=pos[:, :nc], cond_val=vals, mean=0.0)
+        fr, vr = kref(pos)
+        kr = gs.krige.Simple(m, cond_pos=carr, cond_val=vals, mean=0.0)
+        res = [kr(arr), kr()]
+        kr.set_condition()
+        res += [kr(), kr(arr)]
+        col.check(all(close(f, fr, KTOL) and close(v, vr, KTOL) for f, v in res), key + "Krige:repeat",
+                  "%s: kriging with positions, on the stored positions, after set_condition() and with positions again: field "
+                  "deviations from the 4-D model at the spec's positions %s" % (what, [maxdiff(f, fr) for f, _v in res]), rp)
+        col.check(same(kr.cond_pos, arr0[:, :nc]) and same(kr.pos, arr0) and same(carr, arr0[:, :nc]) and same(arr, arr0),
+                  key + "Krige:stored-pos", "%s: the stored cond_pos / pos or the caller's arrays changed: cond_pos times %s, given %s"
+                  % (what, np.asarray(kr.cond_pos)[2].tolist(), arr0[2, :nc].tolist()), rp)
+        # CondSRF at the data-free points, twice
+        cref = gs.CondSRF(kref, seed=seed, mode_no=8)(pos[:, nc:])
+        cs = gs.CondSRF(gs.krige.Simple(m, cond_pos=carr, cond_val=vals, mean=0.0), seed=seed, mode_no=8)
+        res = [cs(tarr), cs(), cs(tarr)]
+        col.check(all(close(r, cref, KTOL) for r in res), key + "CondSRF:repeat",
+                  "%s: conditioned field with positions, on the stored positions, with positions again: deviations from the 4-D model "
+                  "at the spec's positions %s" % (what, [maxdiff(r, cref) for r in res]), rp)
+        col.check(same(cs.pos, arr0[:, nc:]) and same(cs.krige.cond_pos, arr0[:, :nc]) and same(tarr, arr0[:, nc:]),
+                  key + "CondSRF:stored-pos", "%s: the stored positions of the CondSRF / its Krige object changed" % what, rp)
 
 
 def check_oct_set(col, k, pts, states, seed, tier):
@@ -1489,7 +1639,7 @@ def run_c13(rep, tier, seed):
         "rotation invariance is required of kriging only (a RandMeth realisation is not rotation invariant); SRF/CondSRF are replayed under lon+360k",
         "quarter-turn angles / dyadic ratios for the spatio-temporal (non lat-lon) models as in C12",
     ]
-    gcsets = gen_gc_sets(rng, 40 if thorough else 15)
+    gcsets = gen_gc_sets(rng, 50 if thorough else 20)
     octsets = gen_oct_sets(rng, 10 if thorough else 3)
     stsets = gen_st_sets(rng, 24 if thorough else 8)
     with tlc.Scratch() as sc:
